@@ -344,6 +344,8 @@ def ght_op_term(op, shape=None):
         return "GJoin %s" % w
     if name == "cart":
         return "GCart %s %d%%nat" % (w, GHT_SHAPES[shape]["nko"])
+    if name == "force":
+        return "GForce %s" % w
     if name == "ins":
         return "GInsert %s %s" % (w, g_row(op[2]))
     if name in ("merge", "lmerge"):
@@ -373,6 +375,8 @@ def ght_ans_term(op, a):
     if "rows" in a:
         return "GARows %s" % g_rows(a["rows"])
     if "optrows" in a:
+        if a.get("forced_height", 1) != 1:
+            raise ValueError(a)
         return "GAOptRows " + ("None" if a["optrows"] is None else "(Some %s)" % g_rows(a["optrows"]))
     if "cmp" in a:
         return "GACmp " + ("PNone" if a["cmp"] == "None" else "(PSome %s)" % a["cmp"])
@@ -427,6 +431,8 @@ def ght_oracle(case):
             out[-1]["rows"] = [list(r) for r in out[-1]["rows"]]
         elif name == "cart":
             out.append({"rows": [list(r) for r in sorted({x + y for x in s for y in o})]})
+        elif name == "force":
+            out.append({"optrows": sorted(list(r) for r in s) if nk == 0 else None})
     return out
 
 
@@ -454,6 +460,9 @@ def gen_ght_case(rng, tier):
         w = 1 if rng.chance(2, 5) else 0
         h = regs[w]
         both = regs[0] + regs[1]
+        if GHT_SHAPES[shape]["nk"] == 0 and rng.chance(1, 12):
+            ops.append(["force", w])   # COLT force: only the root-leaf shape has it
+            continue
         r = rng.below(100)
         if r < 34:
             x = rng.choice(both) if both and rng.chance(1, 3) else row()
